@@ -253,6 +253,39 @@ def judge(case):
         BF.__call__ = orig
     return {"nontrivial": nontrivial, "outcome": "ok", "violations": viol}
 
+def judge_embedded(case):
+    """every differentiable catalogue operation (tensor ops and functional nn ops) inside a DAG; see gradcheck.check_embedded"""
+    from mc import gradcheck
+    c = case["case"]
+    if case["embed"] == "tensor":
+        from mc import catalog_tensor as cat
+        arrays = cat.arrays_for(c); diff = list(range(len(arrays)))
+        apply = lambda ts: cat.OPS[c["op"]].lib(harness.load(), ts, c.get("args") or {})
+    else:
+        from mc import catalog_nn as cat
+        arrays = cat.arrays_for(c); diff = cat.diff_idx(c, arrays)
+        apply = lambda ts: cat.run_lib(c, arrays, None, ts_override=ts)[0]
+    diff = [k for k in diff if np.asarray(arrays[k]).dtype.kind == "f"]
+    if not diff:
+        return {"nontrivial": False, "outcome": "no-differentiable-operand", "violations": []}
+    viol, ran = gradcheck.check_embedded(apply, arrays, diff, "embedded:" + c["op"])
+    return {"nontrivial": ran, "outcome": "embedded" if ran else "skipped", "violations": viol}
+
+def judge_any(case):
+    return judge_embedded(case) if "embed" in case else judge(case)
+
+def embedded_cases(tier):
+    from mc import catalog_tensor, catalog_nn
+    out = []
+    for c in catalog_tensor.cases(tier, "grad"):
+        if "ties" in (c.get("pats") or []): continue
+        out.append({"embed": "tensor", "case": c})
+    for c in catalog_nn.cases(tier, "grad"):
+        pats = c.get("pats") or []
+        if c.get("form", "fn") != "fn" or "ties" in pats or "with_zeros" in pats: continue
+        out.append({"embed": "nn", "case": c})
+    return out
+
 def all_cases(tier):
     out = []
     subsets = [tuple(bool((m >> i) & 1) for i in range(3)) for m in range(1, 8)]
@@ -270,15 +303,24 @@ def all_cases(tier):
 
 def replay(case):
     with harness.quiet():
-        return judge(case)["violations"]
+        return judge_any(case)["violations"]
 
 def run(tier, seed):
     cases = all_cases(tier)
     r = engine.run_cases(cases, judge)
     nprog = len({harness.digest(c["prog"]) for c in cases})
+    emb = embedded_cases(tier)
+    r2 = engine.run_cases(emb, judge_embedded)
+    r["violations"] = r["violations"] + r2["violations"]
     cov = {"states": nprog, "transitions": sum(len(c["prog"]) for c in cases), "traces_validated_against_impl": r["evaluations"],
            "evaluations": r["evaluations"], "distinct_nontrivial": r["distinct_nontrivial"],
            "samples": r["samples"], "exhaustive": True, "outcomes": r["outcomes"],
+           "embedded_catalogue_cases": {"evaluations": r2["evaluations"], "distinct_nontrivial": r2["distinct_nontrivial"], "outcomes": r2["outcomes"],
+                                        "rule": "every differentiable case of the tensor-op lattice (C01) and every functional case of the nn lattice (C02), "
+                                                "placed inside a DAG: each differentiable operand is an interior node (leaf * 1.0) that also feeds a sibling "
+                                                "branch, the operation is applied twice to the same operand tensors, its first result is consumed twice; both "
+                                                "construction orders; leaf and retained interior gradients == gradient of the operation alone under the summed "
+                                                "upstream gradient + the sibling's contribution"},
            "rule": "ALL typed straight-line programs with n op applications over leaves a:(2,), b:(2,), s:() and ops {neg, tanh, relu, add, mul, "
                    "sum, unbind, stack, index}, each op choosing operands among all earlier values: %s; root = last value, upstream gradient over "
                    "the basis; leaf gradients vs forward-mode Jacobian of the whole program; backward functions invoked exactly once / never; "
